@@ -538,6 +538,34 @@ def all_solvers(ctx):
             ctx.fail(name + '/ill-conditioned/status0-criterion-not-met', 'status 0 but recomputed |b - A x| / |b| = %.3g for tol = 1e-12' % (true / nb), case)
         if res and not (0.1 * true <= res[-1] <= 10 * true) and true > 1e-13 * nb:
             ctx.fail(name + '/ill-conditioned/last-history-entry', 'residuals[-1] = %.3g but recomputed %.3g' % (res[-1], true), case)
+    # the same question with a multigrid preconditioner on a large 1-D Poisson problem (the Givens estimate of flexible GMRES
+    # drifts below the true residual there): status 0 must hold for the RECOMPUTED residual of the returned iterate
+    try:
+        import pyamg
+        from pyamg.gallery import poisson as _pois
+        for Nl in (3000, 5000):
+            Al = sp.csr_array(_pois((Nl,), format='csr'))
+            np.random.seed(0)
+            Ml = pyamg.smoothed_aggregation_solver(Al).aspreconditioner()
+            bl = np.random.default_rng(0).random(Nl)
+            for name in ('fgmres', 'gmres_mgs', 'gmres_householder'):
+                for tol_ in (1e-10, 1e-11, 1e-12):
+                    case = dict(solver=name, probe='1-D Poisson n=%d, SA preconditioner' % Nl, tol=tol_)
+                    with warnings.catch_warnings():
+                        warnings.simplefilter('ignore')
+                        x, st = getattr(krylov, name)(Al, bl, tol=tol_, maxiter=60, M=Ml)
+                    ctx.case((name, 'preconditioned-probe', Nl, tol_), True)
+                    ctx.count('probe:preconditioned-ill-conditioned')
+                    r_ = bl - Al @ x
+                    if name == 'fgmres':
+                        val, ref = np.linalg.norm(r_), np.linalg.norm(bl)
+                    else:
+                        val, ref = np.linalg.norm(Ml @ r_), np.linalg.norm(Ml @ bl)
+                    if st == 0 and not val < tol_ * ref * (1 + 1e-6):
+                        ctx.fail(name + '/preconditioned-probe/status0-criterion-not-met',
+                                 'status 0 but the recomputed criterion is %.3g > tol = %g' % (val / ref, tol_), case)
+    except ImportError:
+        pass
     # corpus: normal-equation solvers on a LinearOperator (F13)
     for name in ('cgne', 'cgnr'):
         Ad, b = systems(ctx.sub('f13'), 3, False, True)
